@@ -1,4 +1,5 @@
 use crate::error::Converter;
+use crate::xml::E57Tag;
 use crate::Extension;
 use crate::{xml, DateTime, Error, Image, PointCloud, Result};
 use roxmltree::Document;
@@ -33,7 +34,7 @@ impl Default for Root {
 pub fn root_from_document(document: &Document) -> Result<Root> {
     let root = document
         .descendants()
-        .find(|n| n.has_tag_name("e57Root"))
+        .find(|n| n.is_e57_tag("e57Root"))
         .invalid_err("Unable to find e57Root tag in XML document")?;
 
     // Required fields
